@@ -16,6 +16,7 @@ import (
 	"strings"
 	"sync"
 	"sync/atomic"
+	"syscall"
 	"time"
 
 	"github.com/benoitkugler/webrender/logger"
@@ -84,7 +85,6 @@ func WorkerMain() {
 		repo = "/repo"
 	}
 	debug.SetMaxStack(64 << 20)
-	debug.SetMemoryLimit(1500 << 20)
 	pc := &pageCounter{}
 	logger.WarningLogger.SetOutput(io.Discard)
 	logger.ProgressLogger.SetOutput(pc)
@@ -107,7 +107,7 @@ func WorkerMain() {
 		for {
 			time.Sleep(150 * time.Millisecond)
 			runtime.ReadMemStats(&ms)
-			if ms.HeapAlloc > 3<<30 {
+			if ms.HeapAlloc > 2<<30 {
 				mu.Lock()
 				answer(Out{ID: int(cur.Load()), Status: "memory", Counted: pc.n.Load()})
 				os.Exit(0)
@@ -152,7 +152,14 @@ func WorkerMain() {
 				d, rerr = render.Full(c.HTML, fonts, render.Opts{UserCSS: c.User, Hints: c.Hints, BaseURL: "file:///nonexistent-base/"})
 			})
 		}()
-		limit := time.After(time.Duration(c.LimitMS) * time.Millisecond)
+		// the limit is in CPU time of this process (robust against a loaded machine); a wall-clock cap
+		// of 6x the limit (at least 60 s) catches a renderer that blocks without burning CPU
+		wall := 6 * time.Duration(c.LimitMS) * time.Millisecond
+		if wall < 60*time.Second {
+			wall = 60 * time.Second
+		}
+		limit := time.After(wall)
+		cpu0 := cpuTime()
 		tick := time.NewTicker(20 * time.Millisecond)
 		var o render.Outcome
 		status := ""
@@ -167,6 +174,10 @@ func WorkerMain() {
 			case <-tick.C:
 				if c.MaxPages > 0 && pc.n.Load() > int64(c.MaxPages) {
 					status = "pageloop"
+					break wait
+				}
+				if cpuTime()-cpu0 > time.Duration(c.LimitMS)*time.Millisecond {
+					status = "timeout"
 					break wait
 				}
 			}
@@ -227,6 +238,15 @@ func canonTrace(t string) string {
 	return strings.Join(lines, "\n")
 }
 
+// cpuTime is the user+system CPU time consumed by this process so far.
+func cpuTime() time.Duration {
+	var ru syscall.Rusage
+	if syscall.Getrusage(syscall.RUSAGE_SELF, &ru) != nil {
+		return 0
+	}
+	return time.Duration(ru.Utime.Nano() + ru.Stime.Nano())
+}
+
 func trimStack(s string) string {
 	lines := strings.Split(s, "\n")
 	var keep []string
@@ -279,7 +299,7 @@ func startWorker(repo string) (*worker, error) {
 		return nil, err
 	}
 	cmd := exec.Command(exe)
-	cmd.Env = append(os.Environ(), WorkerEnv+"=1", "WRH_C01_REPO="+repo, "GOMEMLIMIT=1500MiB", "GOMAXPROCS=2", "GOTRACEBACK=single")
+	cmd.Env = append(os.Environ(), WorkerEnv+"=1", "WRH_C01_REPO="+repo, "GOMEMLIMIT=off", "GOMAXPROCS=2", "GOTRACEBACK=single")
 	w := &worker{cmd: cmd, stderr: &tailBuf{}}
 	cmd.Stderr = w.stderr
 	if w.in, err = cmd.StdinPipe(); err != nil {
@@ -362,7 +382,7 @@ func (w *worker) run1(c Case) (Out, bool) {
 			w.cmd.Wait()
 		}
 		return o, alive
-	case <-time.After(time.Duration(c.LimitMS)*time.Millisecond + 20*time.Second):
+	case <-time.After(7*time.Duration(c.LimitMS)*time.Millisecond + 90*time.Second):
 		// the worker's own watchdog did not fire (all threads stuck): kill it
 		w.cmd.Process.Kill()
 		w.cmd.Wait()
